@@ -345,6 +345,10 @@ func (s *Server) blobUploadMount(repoSrcStr, repoTgtStr, digStr string, w http.R
 	if err != nil {
 		return err
 	}
+	// the source repo comes from a query parameter and has not been validated by the request routing
+	if !rePath.MatchString(repoSrcStr) {
+		return fmt.Errorf("invalid source repository name %q%.0w", repoSrcStr, types.ErrRepoNotAllowed)
+	}
 	repoTgt, err := s.store.RepoGet(r.Context(), repoTgtStr)
 	if err != nil {
 		return err
